@@ -16,8 +16,13 @@ fn generate_hex_from_segment(segment: &[u8]) -> Result<String, Error> {
         records.push(Record::ExtendedSegmentAddress(0x0));
 
         for (i, chunk) in segment.chunks(16).enumerate() {
+            let address = i * 16;
+            // every 64 KiB block above the first one needs its own base address record
+            if address > 0 && address % 0x10000 == 0 {
+                records.push(Record::ExtendedLinearAddress((address >> 16) as u16));
+            }
             records.push(Record::Data {
-                offset: i as u16 * 16,
+                offset: (address & 0xffff) as u16,
                 value: chunk.to_vec(),
             });
         }
